@@ -1174,6 +1174,11 @@ impl SessionContext {
 
         let mut builder = RuntimeEnvBuilder::from_runtime_env(state.runtime_env());
         builder = match key {
+            // `unlimited` is how the absence of a memory limit is displayed
+            "memory_limit" if value == "unlimited" => {
+                builder.memory_pool = None;
+                builder
+            }
             "memory_limit" => {
                 let memory_limit = Self::parse_capacity_limit(variable, value)?;
                 builder.with_memory_limit(memory_limit, 1.0)
@@ -1311,7 +1316,8 @@ impl SessionContext {
     }
 
     /// Parse capacity limit from string to number of bytes by allowing units: K, M and G.
-    /// Supports formats like '1.5G', '100M', '512K'. Capacity limit can be set to 0 with '0'.
+    /// Supports formats like '1.5G', '100M', '512K'. A number without a unit, such as
+    /// '0' or '512', is a number of bytes.
     ///
     /// # Examples
     /// ```
@@ -1332,8 +1338,10 @@ impl SessionContext {
                 "Empty limit value found for '{config_name}'"
             ));
         }
-        if limit == "0" {
-            return Ok(0);
+        // A plain number of bytes (this is how sizes that are not a multiple
+        // of a unit are displayed)
+        if let Ok(bytes) = limit.parse::<usize>() {
+            return Ok(bytes);
         }
         let (unit_start, unit) = limit.char_indices().next_back().ok_or_else(|| {
             plan_datafusion_err!("Empty limit value found for '{config_name}'")
